@@ -834,7 +834,9 @@ def get_unique_label(label: str, labels: dict) -> tp.Tuple[str, dict]:
 
 
 def replace_in_expr(expr: Expr, replacements: dict):
-    expr = expr.subs(replacements, simultaneous=True)
+    # exact, simultaneous replacement of the argument sub-trees. (`subs` substitutes algebraically: with the replacement
+    # `1 - b -> z` it also rewrites the *other* factor `b + r` of `(b + r)*(1 - b)` into `-z + r + 1`.)
+    expr = expr.xreplace(replacements)
     # second pass for arguments that `subs` left untouched. A symbol that the simultaneous substitution has just
     # introduced (e.g. the backend label `x_v1` given to a variable `x`) must not be substituted again, even if another
     # variable of the same operator carries that very name.
